@@ -5,7 +5,7 @@ import numpy as np
 
 from symtt.core import scenario, HarnessError
 from symtt import dense as D
-from .common import mk_cores, meta_ok
+from .common import free_policy, mk_cores, meta_ok
 
 META = {
     'explanation': 'sle.als / sle.mals are run end to end on symbolic operator, right-hand side and initial guess with the micro-solver and '
@@ -142,8 +142,7 @@ def galerkin(ctx, shape, method, cplx, solver, repeats):
     x0d = D.tt_full(ctx, mk_cores(ctx, 'x', sx, cplx))
     if ctx.sym:
         from symtt import state, lapack
-        state.reset()
-        lapack.set_policy(lapack.FreePolicy(assume_sorted_spectrum=False))
+        free_policy(ctx)
     width = 1 if method == 'als' else 2
     with Recorder(sle, '__update_core_' + method) as rec:
         if method == 'als':
